@@ -39,7 +39,17 @@ for d in sorted(glob.glob(os.path.join(here, 'seeded', '*'))):
         else:
             p, rc, v = res[0]
             ok = rc == 1 and v and 'no-failing-input-found' not in v[0]
-            print(name, target, 'caught with failing input' if ok else 'NOT CAUGHT PROPERLY rc=%d %s' % (rc, v), '%.0fs' % (time.time() - t0), flush=True)
+            extra = ''
+            seeds = [x for x in os.environ.get('VERIF_SEEDS', '').split(',') if x]
+            if seeds:
+                hit = 0
+                for sd in seeds:
+                    r = subprocess.run('python3 check.py %s --tier %s' % (target, tier), shell=True, stdout=subprocess.PIPE, stderr=subprocess.STDOUT, text=True, cwd=here, env=dict(os.environ, VERIF_SEED=sd))
+                    vv = [l for l in r.stdout.split('\n') if l.startswith('VIOLATION')]
+                    hit += 1 if (r.returncode == 1 and vv and 'no-failing-input-found' not in vv[0]) else 0
+                extra = ' seeds %s: %d/%d' % (','.join(seeds), hit, len(seeds))
+                ok = ok and hit == len(seeds)
+            print(name, target, ('caught with failing input' if ok else 'NOT CAUGHT PROPERLY rc=%d %s' % (rc, v)) + extra, '%.0fs' % (time.time() - t0), flush=True)
         bad += 0 if ok else 1
     finally:
         sh('git -C %s checkout -- .' % MUT)
